@@ -173,6 +173,8 @@ type Req struct {
 	CompactAuth bool
 	// BodyFn, when set, builds the body once the request is signed (aws-chunked bodies chain from the request signature)
 	BodyFn func(seedSignature string, at time.Time) []byte
+	// NoContentLength: send the request without a Content-Length header (and without a body)
+	NoContentLength bool
 }
 
 // Do signs (header SigV4, the repository's own signer with the gateway's settings) and sends the raw request.
@@ -239,7 +241,7 @@ func (g *GW) Do(r Req) *Resp {
 	}
 	var b bytes.Buffer
 	fmt.Fprintf(&b, "%s %s HTTP/1.1\r\n", r.Method, r.Target)
-	if _, ok := hdr["Content-Length"]; !ok {
+	if _, ok := hdr["Content-Length"]; !ok && !r.NoContentLength {
 		hdr["Content-Length"] = fmt.Sprint(len(r.Body))
 	}
 	var keys []string
